@@ -123,14 +123,26 @@ def run(ck):
         ck.ob("C05-O4", sitestr(f, n), ok, "%s: %s" % (describe(n)[:70], why) if ok else "unsanctioned destructive call %s: %s" % (describe(n)[:90], why),
               key="destructive|%s|%s|%s" % (strip_tmpl(f.name).split("::")[-1], k, why if not ok else "ok"))
     # ---- O5
+    from engine.inline import owner_of
     rr = F.reachable_from([S.m["rotateIfNeeded"]], virtual=False)
+    flat = {f.id: f for f in S.flat_units()}
+    seen_w = set()
     for fid in sorted(rr):
         f = F.fns.get(fid)
         if f is None:
             continue
+        if fid in flat:
+            f = flat[fid]
+        elif owner_of(F, f, stop=S.units).id in flat and owner_of(F, f, stop=S.units).id != fid:
+            continue   # spliced into its owner and judged there
         for n in f.calls(("QIODevice::write", "QIODevice::putChar", "QFile::write")):
-            o = deref_local(f, n.get("obj"))
-            own = f.id == S.m["compressFile"].id and skip_copies(n.get("obj")).get("k") == "ref" and skip_copies(n.get("obj")).get("dk") == "local"
+            if (n.get("l"), n.get("c")) in seen_w:
+                continue
+            seen_w.add((n.get("l"), n.get("c")))
+            o = skip_copies(deref_local(f, n.get("obj")))
+            # the object written to must be a file object created inside compressFile (its own output), never the sink's file
+            local_obj = isinstance(o, dict) and o.get("k") == "ref" and o.get("dk") == "local" and not o.get("inl_param")
+            own = f.id == S.m["compressFile"].id and local_obj and not S.is_active_file(o, f)
             ck.ob("C05-O5", sitestr(f, n), own, "write to compressFile's own output file" if own else "rotation code writes to %s" % describe(n.get("obj")), key="rotation-writes|%s" % strip_tmpl(f.name).split("::")[-1])
 
 
